@@ -16,7 +16,7 @@ from ..rfc7518.derive_key import (
 )
 from ..rfc7518.jwe_encs import CBCHS2EncModel
 from ..registry import HeaderParameter
-from ..errors import InvalidEncryptionAlgorithmError
+from ..errors import InvalidEncryptionAlgorithmError, InvalidExchangeKeyError
 
 
 __all__ = ['ECDH1PUAlgModel', 'register_ecdh_1pu', 'JWE_ALG_MODELS']
@@ -112,7 +112,8 @@ class ECDH1PUAlgModel(JWEKeyAgreement):
 
         sender_key = recipient.sender_key
         recipient_key = recipient.recipient_key
-        assert sender_key is not None
+        if sender_key is None:
+            raise InvalidExchangeKeyError("A sender key is required for ECDH-1PU")
         assert recipient_key is not None
 
         ephemeral_key = recipient_key.import_key(headers["epk"])
